@@ -1070,7 +1070,9 @@ class GeneralThermodynamics:
                 orderedPoints = calculate(self.db, self.elements, phases[0], 
                                           pdens=self.sampling_pDens, model=sub_models, output='OCM', 
                                           phase_records=self.phase_records, to_xarray=False, **str_cond)
-            self._points_cache[precPhase] = SampledPointsCache(temperature=T, samples=precPoints, ordered_samples=orderedPoints, conditions=local_phase_sampling_conditions)
+            #Store a copy of the conditions, the caller may modify the dictionary afterwards
+            storedConditions = None if local_phase_sampling_conditions is None else dict(local_phase_sampling_conditions)
+            self._points_cache[precPhase] = SampledPointsCache(temperature=T, samples=precPoints, ordered_samples=orderedPoints, conditions=storedConditions)
 
         #For phases at fixed composition, there will only be 1 set of site fractions
         #So we force composition and site fractions to be 2D
